@@ -91,7 +91,8 @@ static int parseConvertElement(MPT_INTERFACE(convertable) *conv, MPT_TYPE(type) 
 		if (dest) {
 			((const char **) dest)[0] = key;
 		}
-		len = txt - it->val;
+		/* terminate key at its end, a consumed separator is skipped by advance */
+		len = (key + klen) - it->val;
 	}
 	/* convert to target type */
 	else if ((len = mpt_convert_string(it->val, type, dest)) < 0) {
